@@ -29,6 +29,9 @@ func (c *runCtx) goitRun(dir string, args ...string) (string, int) {
 	cmd := exec.CommandContext(ctx, c.goit, args...)
 	cmd.Dir = dir
 	cmd.Env = []string{"HOME=" + os.Getenv("HOME"), "NO_COLOR=1", "TZ=UTC"}
+	if d := os.Getenv("GOCOVERDIR"); d != "" {
+		cmd.Env = append(cmd.Env, "GOCOVERDIR="+d) // tools/coverage.sh only
+	}
 	out, err := cmd.CombinedOutput()
 	code := 0
 	if ctx.Err() != nil {
@@ -108,6 +111,23 @@ func (c *runCtx) mutations(b []byte, f func(m mutation)) {
 		d := append(append([]byte{}, b[:i]...), b[i+1:]...)
 		f(mutation{"delete", d})
 	}
+	// insertions lengthen fields (digit runs overflow numbers, "[]" is the shortest section line) and repeat parts
+	istep := step
+	if n > 256 {
+		istep = step * (n / 128)
+	}
+	for i := 0; i <= n; i += istep {
+		for k := 0; k < c.pick(2, 4); k++ {
+			tok := insertDict[c.rng.IntN(len(insertDict))]
+			d := append(append(append([]byte{}, b[:i]...), tok...), b[i:]...)
+			f(mutation{"insert", d})
+		}
+		if i < n {
+			j := i + 1 + c.rng.IntN(min(n-i, 64))
+			d := append(append(append([]byte{}, b[:j]...), b[i:j]...), b[j:]...)
+			f(mutation{"duplicate", d})
+		}
+	}
 	all := n <= 512 && c.thorough()
 	for i := 0; i < n; i += step {
 		if all {
@@ -136,6 +156,8 @@ func (c *runCtx) mutations(b []byte, f func(m mutation)) {
 		}
 	}
 }
+
+var insertDict = []string{"99999999999999999999999", "\n", "\n\n", " ", "\x00", "[]\n", "[", "]", "\t", "=", "<", ">", "+", "-", "0", "/", "..", "\n[]\n", "\xff", "parent " + strings.Repeat("0", 40) + "\n", "100644 x\x00" + strings.Repeat("\x01", 20), "ref: refs/heads/"}
 
 var dict = []string{"DIRC", "ref: refs/heads/", "[user]", "040000 ", "100644 ", strings.Repeat("a", 40), "\t", ": ", "tree ", "parent ", "author ", "commit 10\x00", "blob 0\x00", "\x00", "\n", " <a@b.cc> 1 +0000", "=", "[", "]", "HEAD@{1}", strings.Repeat("0", 40)}
 
@@ -539,6 +561,7 @@ func monC19(c *runCtx) {
 		}
 		c.restoreFile(r, rel)
 	}
+	c.craftedC19(r, mine, cmds, modCmds)
 	if c.shard == 0 {
 		c.sample(fmt.Sprintf("corpus: %d objects + index, HEAD, branch, config, logs/HEAD, .goitconfig, .goitignore; e.g. object %s", len(r.objects), r.objects[0]))
 	}
